@@ -850,6 +850,20 @@ void run(Src &mainSrc, Case &c)
                     c.cls("excluded:shared-import-source");
                     continue;
                 }
+                if (h.kind == "ImportSource") {
+                    // decided by experiment: is a change made through the clone visible in the original's dump?
+                    auto imp = std::dynamic_pointer_cast<ImportSource>(h.e);
+                    const std::string oldUrl = imp->url();
+                    imp->setUrl(oldUrl + "_changed_through_the_clone");
+                    const std::string after = dumpModel(b.model, DUMP_ORDERED | DUMP_RAW_MATH | DUMP_PTR_IMPORTS);
+                    imp->setUrl(oldUrl);
+                    if (after == origModelDump) {
+                        c.cls("shared-import-source-not-observable");
+                        continue;
+                    }
+                    c.fail("C11.independent|shared:ImportSource", "the clone holds the original's ImportSource object; clone->importSource()->setUrl(...) changed the original model's dump: " + firstDiff(origModelDump, after));
+                    return;
+                }
                 c.fail("C11.independent|shared:" + h.kind, "the clone and the original graph share one " + h.kind + " object (" + it->second + " in the original), so a change made through one side is visible in the other");
                 return;
             }
